@@ -92,7 +92,117 @@ func edge16(rng *rand.Rand) uint16 {
 	return []uint16{0, 1, 0x00ff, 0x0100, 0x7fff, 0xfeff, 0xff00, 0xfffe, 0xffff, uint16(rng.Intn(65536))}[rng.Intn(10)]
 }
 
+// Image content is not white noise: neighbouring pixels repeat, or differ in one respect only (the
+// same colour more or less opaque - a shadow running into a solid area -, one channel changed).  Half
+// of the RGBA-family sources get such structure in scan order.
 func newSrc(rng *rand.Rand, kind string, r image.Rectangle) image.Image {
+	m := newSrcNoise(rng, kind, r)
+	if rng.Intn(2) == 0 {
+		return m
+	}
+	max3 := func(a, b, c uint32) uint32 {
+		if b > a {
+			a = b
+		}
+		if c > a {
+			a = c
+		}
+		return a
+	}
+	alphaVariant := func(cur, lo, full uint32) uint32 { // another alpha, not below lo
+		switch rng.Intn(3) {
+		case 0:
+			return full
+		case 1:
+			return lo + uint32(rng.Intn(int(full-lo)+1))
+		}
+		if cur == full {
+			return lo + (full-lo)/2
+		}
+		return full
+	}
+	switch img := m.(type) {
+	case *image.RGBA64:
+		var p color.RGBA64
+		have := false
+		for y := r.Min.Y; y < r.Max.Y; y++ {
+			for x := r.Min.X; x < r.Max.X; x++ {
+				if have && rng.Intn(2) == 0 {
+					q := p
+					switch rng.Intn(3) {
+					case 0: // repeat
+					case 1: // same channels, other alpha
+						q.A = uint16(alphaVariant(uint32(p.A), max3(uint32(p.R), uint32(p.G), uint32(p.B)), 0xffff))
+					default: // one channel changed
+						q.G = uint16(rng.Intn(int(p.A) + 1))
+					}
+					img.SetRGBA64(x, y, q)
+				}
+				p, have = img.RGBA64At(x, y), true
+			}
+		}
+	case *image.RGBA:
+		var p color.RGBA
+		have := false
+		for y := r.Min.Y; y < r.Max.Y; y++ {
+			for x := r.Min.X; x < r.Max.X; x++ {
+				if have && rng.Intn(2) == 0 {
+					q := p
+					switch rng.Intn(3) {
+					case 0:
+					case 1:
+						q.A = uint8(alphaVariant(uint32(p.A), max3(uint32(p.R), uint32(p.G), uint32(p.B)), 0xff))
+					default:
+						q.B = uint8(rng.Intn(int(p.A) + 1))
+					}
+					img.SetRGBA(x, y, q)
+				}
+				p, have = img.RGBAAt(x, y), true
+			}
+		}
+	case *image.NRGBA64:
+		var p color.NRGBA64
+		have := false
+		for y := r.Min.Y; y < r.Max.Y; y++ {
+			for x := r.Min.X; x < r.Max.X; x++ {
+				if have && rng.Intn(2) == 0 {
+					q := p
+					switch rng.Intn(3) {
+					case 0:
+					case 1:
+						q.A = uint16(alphaVariant(uint32(p.A), 0, 0xffff))
+					default:
+						q.R = uint16(rng.Intn(65536))
+					}
+					img.SetNRGBA64(x, y, q)
+				}
+				p, have = img.NRGBA64At(x, y), true
+			}
+		}
+	case *image.NRGBA:
+		var p color.NRGBA
+		have := false
+		for y := r.Min.Y; y < r.Max.Y; y++ {
+			for x := r.Min.X; x < r.Max.X; x++ {
+				if have && rng.Intn(2) == 0 {
+					q := p
+					switch rng.Intn(3) {
+					case 0:
+					case 1:
+						q.A = uint8(alphaVariant(uint32(p.A), 0, 0xff))
+					default:
+						q.G = uint8(rng.Intn(256))
+					}
+					img.SetNRGBA(x, y, q)
+				}
+				p, have = img.NRGBAAt(x, y), true
+			}
+		}
+	}
+	return m
+}
+
+func newSrcNoise(rng *rand.Rand, kind string, r image.Rectangle) image.Image {
 	fill := func(p []byte) { rng.Read(p) }
 	switch {
 	case kind == "RGBA64":
